@@ -18,7 +18,7 @@ def hx(s):
     return "x" + s.hex()
 
 
-ALL_API_FINDINGS = {"D01", "D02", "D03", "D05", "D06", "D08", "D16", "D17", "D18"}
+ALL_API_FINDINGS = {"D03", "D05", "D06", "D08", "D16", "D17", "D18"}
 ALLFAM = "str,key,list,set,hash,zset,expire"
 
 
@@ -1324,7 +1324,7 @@ class C18(Cfg):
 
 PROPS = {
     "C01": C01("C01", "str", "rstring", {"D05", "D17"}),
-    "C02": C02("C02", "list", "rlist", {"D01", "D02", "D03", "D05"}),
+    "C02": C02("C02", "list", "rlist", {"D03", "D05"}),
     "C03": C03("C03", "set", "rset", {"D05", "D08"}),
     "C04": C04("C04", "hash", "rhash", {"D05", "D17"}),
     "C05": C05("C05", "zset", "rzset", {"D05", "D08"}),
